@@ -15,8 +15,8 @@ statement (not from the C++):
 * callbacks see: handler/guard: current = source; exit: current = source, next = target;
   route action: current = none, last = source, next = target; enter/notification:
   current = target, last = source;
-* every call a callback makes on its own machine is rejected: it returns false and nothing
-  changes.
+* every call a callback makes on its own machine OR ON AN ANCESTOR is rejected: it returns false
+  and nothing changes (a machine whose sub-machine is working is itself inside a call).
 
 There is no re-entrancy counter, no `next` field and no running flag here.
 -/
@@ -30,137 +30,162 @@ deriving Repr, DecidableEq
 
 abbrev S (Sub : Type) := MachOf SRt Sub
 
-/-- a callback body: an observation yields the phase's view; a call on the own machine is rejected -/
-def body (v : View) : Script → Trace
-  | [] => []
-  | .obs :: rest => here (.obs v) :: body v rest
-  | .call c :: rest => here (.call c false v v) :: body v rest
+/-- what a machine knows of its ancestors while a callback runs: index and the view their
+observers give at that moment (nearest first).  Every ancestor is inside a call. -/
+abbrev SCtx := List (Nat × View)
+
+def lookupCtx (ctx : SCtx) (k : Nat) : Option View := (ctx.find? (fun p => p.1 == k)).map (·.2)
+
+def targetView (self : Nat) (v : View) (ctx : SCtx) : Option Nat → Option View
+  | none => some v
+  | some k => if k = self then some v else lookupCtx ctx k
+
+/-- one operation of a callback body: an observation yields the view of the addressed machine;
+a call on the own machine or on an ancestor (all of them are inside a call) is rejected: it
+returns false and nothing changes.  Other machines are outside this semantics (`foreign`). -/
+def bodyOp (self : Nat) (v : View) (ctx : SCtx) : SOp → Kind
+  | .obs t =>
+      match targetView self v ctx t with
+      | some w => .obs t w
+      | none => .foreign (t.getD 0)
+  | .call t c =>
+      match targetView self v ctx t with
+      | some w => .call t c false w w
+      | none => .foreign (t.getD 0)
+
+def body (self : Nat) (v : View) (ctx : SCtx) (sc : Script) : Trace :=
+  sc.map fun op => here (bodyOp self v ctx op)
 
 /-- a phase: the semantic event and, if the callback exists, its body -/
-def phase (mk : Bool → Kind) (p : Option Script) (v : View) : Trace :=
-  here (mk p.isSome) :: (match p with | some sc => body v sc | none => [])
+def phase (mk : Bool → Kind) (p : Option Script) (self : Nat) (v : View) (ctx : SCtx) : Trace :=
+  here (mk p.isSome) :: (match p with | some sc => body self v ctx sc | none => [])
 
 /-- routes with their registration index -/
 def indexed : Nat → List Route → List (Nat × Route)
   | _, [] => []
   | i, r :: rs => (i, r) :: indexed (i + 1) rs
 
-def holds (r : Route) (e : EventId) : Bool :=
+def holds (r : Route) (e : Event) : Bool :=
   match r.guard with
   | none => true
   | some g => g.eval e
 
 /-- the routes that can be taken on `e`, in registration order -/
-def candidates (rs : List Route) (e : EventId) : List (Nat × Route) :=
+def candidates (rs : List Route) (e : Event) : List (Nat × Route) :=
   (indexed 0 rs).filter (fun p => p.2.matchesEvent e)
 
 /-- the route taken: the first candidate whose guard holds -/
-def chosen (rs : List Route) (e : EventId) : Option (Nat × Route) :=
+def chosen (rs : List Route) (e : Event) : Option (Nat × Route) :=
   (candidates rs e).find? (fun p => holds p.2 e)
 
-def guardEvents (sid : StateId) (v : View) (e : EventId) (p : Nat × Route) : Trace :=
+def guardEvents (sid : StateId) (self : Nat) (v : View) (ctx : SCtx) (e : Event) (p : Nat × Route) : Trace :=
   match p.2.guard with
   | none => []
-  | some g => here (.guard sid p.1 e (g.eval e)) :: body v g.script
+  | some g => here (.guard sid p.1 e (g.eval e)) :: body self v ctx g.script
 
 /-- guards are evaluated for the candidates up to and including the chosen one -/
-def scanEvents (sid : StateId) (v : View) (e : EventId) (rs : List Route) : Trace :=
-  (((candidates rs e).takeWhile (fun p => !holds p.2 e)) ++ (chosen rs e).toList).flatMap (guardEvents sid v e)
+def scanEvents (sid : StateId) (self : Nat) (v : View) (ctx : SCtx) (e : Event) (rs : List Route) : Trace :=
+  (((candidates rs e).takeWhile (fun p => !holds p.2 e)) ++ (chosen rs e).toList).flatMap (guardEvents sid self v ctx e)
 
 section Level
 variable {Sub : Type}
 
 def isTerminated (m : S Sub) : Bool := m.rt.active == some 0
 
-def start (ops : SubOps Sub) (m : S Sub) : S Sub × Bool × Trace :=
+def start (ops : SubOps SCtx Sub) (ctx : SCtx) (m : S Sub) : S Sub × Bool × Trace :=
   match m.rt.active with
   | some _ => (m, false, [])                   -- already started
   | none =>
     match m.findState m.init with
     | none => (m, false, [])                   -- no initial state
     | some st =>
-      let t := phase (.enter st.id 0) st.enter (mkView (some st.id) m.rt.last none)
+      let v := mkView (some st.id) m.rt.last none
+      let t := phase (.enter st.id ev0) st.enter m.mid v ctx
       let m' : S Sub := { m with rt := { m.rt with active := some st.id } }
       match st.sub with
       | none => (m', true, t)
       | some sub =>
-        let r := ops.start sub
+        let r := ops.start ((m.mid, v) :: ctx) sub
         (m'.setSub st.id r.1, true, t ++ lift st.id r.2.2)
 
-def stop (ops : SubOps Sub) (m : S Sub) : S Sub × Trace :=
+def stop (ops : SubOps SCtx Sub) (ctx : SCtx) (m : S Sub) : S Sub × Trace :=
   match m.rt.active with
   | none => (m, [])
   | some a =>
     let st := m.stateOf a
-    let t := phase (.exit a 0) st.exit (mkView (some a) m.rt.last none)
+    let v := mkView (some a) m.rt.last none
+    let t := phase (.exit a ev0) st.exit m.mid v ctx
     match st.sub with
     | none => ({ m with rt := { m.rt with active := none } }, t)
     | some sub =>
-      let r := ops.stop sub
+      let r := ops.stop ((m.mid, v) :: ctx) sub
       let m' := m.setSub a r.1
       ({ m' with rt := { m'.rt with active := none } }, lift a r.2 ++ t)
 
 /-- who decides: a handler's answer (if a handler applies) -/
-def askHandler (st : StateDef Sub) (v : View) (e : EventId) : Option (Int × Trace) :=
+def askHandler (st : StateDef Sub) (self : Nat) (v : View) (ctx : SCtx) (e : Event) : Option (Int × Trace) :=
   let h : Option (Option EventId × Handler) :=
-    match st.events.find? (fun p => p.1 == e) with
+    match st.events.find? (fun p => p.1 == e.id) with
     | some p => some (some p.1, p.2)
     | none => st.dflt.map (fun h => (none, h))
-  h.map fun kh => (kh.2.eval e, here (.handler st.id kh.1 e (kh.2.eval e)) :: body v kh.2.script)
+  h.map fun kh => (kh.2.eval e, here (.handler st.id kh.1 e (kh.2.eval e)) :: body self v ctx kh.2.script)
 
 /-- take the transition `a → target` -/
-def fire (ops : SubOps Sub) (m : S Sub) (a : StateId) (e : EventId) (target : StateId)
+def fire (ops : SubOps SCtx Sub) (ctx : SCtx) (m : S Sub) (a : StateId) (e : Event) (target : StateId)
     (ridx : Option Nat) (action : Option Script) : S Sub × Bool × Trace :=
   let st := m.stateOf a
   match m.resolve target with
   | none => (m, false, [])                     -- a handler named a state that does not exist
   | some ts =>
-    let t := phase (.exit a e) st.exit (mkView (some a) m.rt.last (some ts.id))
-          ++ phase (.action a ridx e) action (mkView none (some a) (some ts.id))
-          ++ phase (.enter ts.id e) ts.enter (mkView (some ts.id) (some a) none)
-          ++ phase (.notify a ts.id e) m.cb (mkView (some ts.id) (some a) none)
+    let t := phase (.exit a e) st.exit m.mid (mkView (some a) m.rt.last (some ts.id)) ctx
+          ++ phase (.action a ridx e) action m.mid (mkView none (some a) (some ts.id)) ctx
+          ++ phase (.enter ts.id e) ts.enter m.mid (mkView (some ts.id) (some a) none) ctx
+          ++ phase (.notify a ts.id e) m.cb m.mid (mkView (some ts.id) (some a) none) ctx
     let m' : S Sub := { m with rt := { active := some ts.id, last := some a } }
     match ts.sub with
     | none => (m', true, t)
     | some sub =>
-      let r1 := ops.start sub
-      let r2 := ops.run r1.1 e
+      let down : SCtx := (m.mid, mkView (some ts.id) (some a) none) :: ctx
+      let r1 := ops.start down sub
+      let r2 := ops.run down r1.1 e
       (m'.setSub ts.id r2.1, true, t ++ lift ts.id (r1.2.2 ++ r2.2.2))
 
 /-- the machine in state `a` handles `e` itself -/
-def handle (ops : SubOps Sub) (m : S Sub) (a : StateId) (e : EventId) : S Sub × Bool × Trace :=
+def handle (ops : SubOps SCtx Sub) (ctx : SCtx) (m : S Sub) (a : StateId) (e : Event) : S Sub × Bool × Trace :=
   let st := m.stateOf a
   let v := mkView (some a) m.rt.last none
   let viaRoute (pre : Trace) : S Sub × Bool × Trace :=
-    let tr := pre ++ scanEvents a v e st.routes
+    let tr := pre ++ scanEvents a m.mid v ctx e st.routes
     match chosen st.routes e with
     | none => (m, false, tr)
     | some (i, r) =>
-      let x := fire ops m a e r.to (some i) r.action
+      let x := fire ops ctx m a e r.to (some i) r.action
       (x.1, x.2.1, tr ++ x.2.2)
-  match askHandler st v e with
+  match askHandler st m.mid v ctx e with
   | some (target, t) =>
     if target = -1 then viaRoute t
     else
-      let x := fire ops m a e target none none
+      let x := fire ops ctx m a e target none none
       (x.1, x.2.1, t ++ x.2.2)
   | none => viaRoute []
 
-def run (ops : SubOps Sub) (m : S Sub) (e : EventId) : S Sub × Bool × Trace :=
+def run (ops : SubOps SCtx Sub) (ctx : SCtx) (m : S Sub) (e : Event) : S Sub × Bool × Trace :=
   match m.rt.active with
   | none => (m, false, [])
   | some a =>
     match (m.stateOf a).sub with
-    | none => handle ops m a e
+    | none => handle ops ctx m a e
     | some sub =>
-      let r := ops.run sub e
+      -- the machine is inside `run` while its sub-machine works
+      let down : SCtx := (m.mid, mkView (some a) m.rt.last none) :: ctx
+      let r := ops.run down sub e
       if ops.isTerminated r.1 then
-        let s := ops.stop r.1
-        let x := handle ops (m.setSub a s.1) a e
+        let s := ops.stop down r.1
+        let x := handle ops ctx (m.setSub a s.1) a e
         (x.1, x.2.1, lift a (r.2.2 ++ s.2) ++ x.2.2)
       else (m.setSub a r.1, r.2.1, lift a r.2.2)
 
-def levelOps (ops : SubOps Sub) : SubOps (S Sub) :=
+def levelOps (ops : SubOps SCtx Sub) : SubOps SCtx (S Sub) :=
   { start := start ops, stop := stop ops, run := run ops, isTerminated := isTerminated,
     isRunning := fun m => m.rt.active.isSome }
 
@@ -170,19 +195,19 @@ def SMach : Nat → Type
   | 0 => MachOf SRt Empty
   | n + 1 => MachOf SRt (SMach n)
 
-def subOps : (n : Nat) → SubOps (SMach n)
+def subOps : (n : Nat) → SubOps SCtx (SMach n)
   | 0 => levelOps emptyOps
   | n + 1 => levelOps (subOps n)
 
 def applyCall (n : Nat) (m : SMach n) (c : Call) : SMach n × Bool × Trace :=
   match c with
-  | .start => (subOps n).start m
-  | .stop => let r := (subOps n).stop m; (r.1, false, r.2)
+  | .start => (subOps n).start [] m
+  | .stop => let r := (subOps n).stop [] m; (r.1, false, r.2)
   | .restart =>
-      let s := (subOps n).stop m
-      let r := (subOps n).start s.1
+      let s := (subOps n).stop [] m
+      let r := (subOps n).start [] s.1
       (r.1, r.2.1, s.2 ++ r.2.2)
-  | .run e => (subOps n).run m e
+  | .run e => (subOps n).run [] m e
 
 /-- what the five observers answer between calls -/
 def view (rt : SRt) : View :=
